@@ -285,7 +285,9 @@ def run_property(prop, tier, only=None, seed=0, write_evidence=True, quiet=False
                 elif full in proved_names:
                     errors.append("%s: native seed %s fails a clause the engine proved (engine/oracle mismatch)" % (full, s['inputs']))
             if s['replay'].get('error') and not s['replay'].get('failed'):
-                errors.append("%s: native seed replay error: %s" % (r['case'], s['replay']['error']))
+                msg = "%s: native seed replay error: %s" % (r['case'], s['replay']['error'])
+                if not (s['replay'].get('skipped') and msg in errors):     # the seeds not run after repeated timeouts: one line
+                    errors.append(msg)
         if (len(violations), len(undecided), len(errors)) != mark:
             unclean.add(r['case'])
             if r.get('stand_in') and len(violations) == mark[0]:
